@@ -1584,6 +1584,11 @@ class QuicConnection:
             tls.Epoch.HANDSHAKE: QuicPacketSpace(),
             tls.Epoch.ONE_RTT: QuicPacketSpace(),
         }
+        # When the handshake restarts (Retry, version negotiation) the packets
+        # sent so far are no longer tracked: hand them back to the congestion
+        # controller, otherwise they stay in flight forever.
+        for space in self._loss.spaces:
+            self._loss.discard_space(space)
         self._loss.spaces = list(self._spaces.values())
 
     def _handle_ack_frame(
